@@ -346,8 +346,8 @@ prop(
     level="other",
     design_ref="DESIGN.md section 3, C17",
     groups=[(["./plugin/action/mask"], r"^\(\*Mask\)\.(maskValue|maskSection)$"), (["./cfg"], r"^VerifyGroupNumbers$"), (["./cfg/matchrule"], r"^\(\*Rule\)\.(Match|match)$"),
-            (["./plugin/action/mask", "./pipeline"], r"^(addFieldsToTree|\(\*Plugin\)\.traverseTree)$")],
-    canaries=[("./plugin/action/mask", "replay/C17/zz_replay_c17_test.go", "TestVerifReplayC17Tail")],
+            (["./plugin/action/mask", "./pipeline"], r"^(addFieldsToTree|\(\*Plugin\)\.(traverseTree|processMask))$")],
+    canaries=[("./plugin/action/mask", "replay/C17/zz_replay_c17_test.go", "TestVerifReplayC17Tail"), ("./plugin/action/mask", "replay/C17/zz_cut_to_empty_test.go", "TestVerifCutToEmptyStaysCut")],
     known_canaries=[("./plugin/action/mask", "replay/C17/zz_replay_c17_test.go", "TestVerifReplayC17Order")],
     claim=(
         "maskValue under contract against a regexp model that promises only what the library guarantees (every submatch pair is (-1,-1) or 0<=s<=e<=len, nothing about the order of groups): "
